@@ -235,8 +235,8 @@ Lemma selects_nonempty n comps chain : Selects n comps chain -> chain <> [].
 Proof. destruct 1; discriminate. Qed.
 
 (* ---------- one match: state-free form ---------- *)
-Definition match_files (all : bool) (chain : list (str * node)) : res (list (str * str)) :=
-  match check_path chain with
+Definition match_files (nd all : bool) (chain : list (str * node)) : res (list (str * str)) :=
+  match check_path nd chain with
   | Some e => Err e
   | None =>
     match last chain ([], Irreg) with
@@ -249,34 +249,56 @@ Definition match_files (all : bool) (chain : list (str * node)) : res (list (str
     end
   end.
 
-Lemma do_match_eq all s chain :
-  do_match all s chain =
-  match match_files all chain with Err e => Err e | Ok fs => Ok (fold_left add_file fs s) end.
+Lemma do_match_eq nd all s chain :
+  do_match nd all s chain =
+  match match_files nd all chain with Err e => Err e | Ok fs => Ok (fold_left add_file fs s) end.
 Proof.
-  unfold do_match, match_files. destruct (check_path chain); [reflexivity|].
+  unfold do_match, match_files. destruct (check_path nd chain); [reflexivity|].
   destruct (last chain ([], Irreg)) as [nm [d|es|t|]]; try reflexivity.
   destruct (walk_root all (rel_of chain) (Dir es)); reflexivity.
 Qed.
 
 Definition entry_ok (e : str * node) : Prop := has_gomod (snd e) = false /\ bad_name (fst e) = false.
+Definition dirs_ok (nd : bool) (l : list (str * node)) : Prop :=
+  nd = true -> Forall (fun e => is_dir (snd e) = true) l.
 
-Lemma check_up_none rc : forall b, check_up rc b = None <-> Forall entry_ok rc.
+Lemma check_up_none nd rc : forall b,
+  check_up nd rc b = None <-> Forall entry_ok rc /\ dirs_ok nd (if b then tl rc else rc).
 Proof.
-  induction rc as [|[name nd] rc IH]; intros b; cbn [check_up].
-  - split; [constructor | reflexivity].
-  - destruct (has_gomod nd) eqn:Eg.
-    + split; [discriminate|]. intros H. inversion H as [|? ? [H1 _]]; subst. cbn in H1. congruence.
-    + destruct (bad_name name) eqn:Eb.
-      * split; [discriminate|]. intros H. inversion H as [|? ? [_ H2]]; subst. cbn in H2. congruence.
-      * rewrite IH. split; intros H.
-        -- constructor; [split; assumption | assumption].
-        -- now inversion H.
+  induction rc as [|[name n] rc IH]; intros b; cbn [check_up].
+  - split; [intros _; split; [constructor | destruct b; intros _; constructor] | reflexivity].
+  - destruct (has_gomod n) eqn:Eg.
+    { split; [discriminate|]. intros [H _]. inversion H as [|? ? [H1 _]]; subst. cbn in H1. congruence. }
+    destruct (nd && negb b && negb (is_dir n)) eqn:E2.
+    { split; [discriminate|]. intros [_ H].
+      apply andb_true_iff in E2 as [E2 E3]. apply andb_true_iff in E2 as [E1 E2].
+      apply negb_true_iff in E2, E3. subst b. specialize (H E1). inversion H; subst. cbn in *. congruence. }
+    destruct (bad_name name) eqn:Eb.
+    { split; [discriminate|]. intros [H _]. inversion H as [|? ? [_ H2]]; subst. cbn in H2. congruence. }
+    rewrite IH. cbn [tl]. split.
+    + intros [H1 H2]. split; [constructor; [split; assumption | assumption]|].
+      destruct b; [exact H2|]. intros Hn. constructor; [|now apply H2].
+      cbn [snd]. subst nd. cbn in E2. now apply negb_false_iff in E2.
+    + intros [H1 H2]. inversion H1; subst. split; [assumption|].
+      destruct b; [exact H2|]. intros Hn. specialize (H2 Hn). now inversion H2.
 Qed.
 
-Lemma check_path_none chain : check_path chain = None <-> Forall entry_ok chain.
+Lemma tl_rev {A} (l : list A) : tl (rev l) = rev (removelast l).
 Proof.
-  unfold check_path. rewrite check_up_none. rewrite !Forall_forall.
-  split; intros H x Hx; apply H; [now apply -> in_rev | now apply in_rev].
+  induction l as [|x l IH] using rev_ind; [reflexivity|].
+  rewrite rev_app_distr, removelast_last. reflexivity.
+Qed.
+
+Lemma forall_rev {A} (P : A -> Prop) l : Forall P (rev l) <-> Forall P l.
+Proof.
+  rewrite !Forall_forall. split; intros H x Hx; apply H; [now apply -> in_rev | now apply in_rev].
+Qed.
+
+Lemma check_path_none nd chain :
+  check_path nd chain = None <-> Forall entry_ok chain /\ dirs_ok nd (removelast chain).
+Proof.
+  unfold check_path. rewrite check_up_none, tl_rev, forall_rev. unfold dirs_ok.
+  split; intros [H1 H2]; (split; [assumption|]); intros Hn; apply forall_rev; auto.
 Qed.
 
 Lemma last_in {A} (l : list A) d : l <> [] -> In (last l d) l.
@@ -289,19 +311,19 @@ Lemma last_dir_nonempty (chain : list (str * node)) nm n :
   last chain ([], Irreg) = (nm, n) -> n <> Irreg -> chain <> [].
 Proof. intros H Hn ->. cbn in H. congruence. Qed.
 
-Lemma match_files_nonempty all chain fs : match_files all chain = Ok fs -> fs <> [].
+Lemma match_files_nonempty nd all chain fs : match_files nd all chain = Ok fs -> fs <> [].
 Proof.
-  unfold match_files. destruct (check_path chain); [discriminate|].
+  unfold match_files. destruct (check_path nd chain); [discriminate|].
   destruct (last chain ([], Irreg)) as [nm [d|es|t|]]; try discriminate.
   - intros H; inversion H. discriminate.
   - destruct (walk_root all (rel_of chain) (Dir es)); [discriminate|]. intros H; inversion H. discriminate.
 Qed.
 
-Lemma match_files_gives all chain fs p d :
-  match_files all chain = Ok fs -> (In (p, d) fs <-> Gives all chain p d).
+Lemma match_files_gives nd all chain fs p d :
+  match_files nd all chain = Ok fs -> (In (p, d) fs <-> Gives all chain p d).
 Proof.
-  unfold match_files. destruct (check_path chain) eqn:Ec; [discriminate|].
-  apply check_path_none in Ec.
+  unfold match_files. destruct (check_path nd chain) eqn:Ec; [discriminate|].
+  apply check_path_none in Ec as [Ec _].
   destruct (last chain ([], Irreg)) as [nm n] eqn:El.
   destruct n as [d0|es|t|]; try discriminate.
   - intros H; inversion H; subst fs. split.
@@ -322,26 +344,33 @@ Proof.
       now apply walk_complete.
 Qed.
 
-Lemma check_up_some rc : forall b e, check_up rc b = Some e ->
-  exists x, In x rc /\ (has_gomod (snd x) = true \/ bad_name (fst x) = true).
+Lemma check_up_some nd rc : forall b e, check_up nd rc b = Some e ->
+  (exists x, In x rc /\ (has_gomod (snd x) = true \/ bad_name (fst x) = true))
+  \/ (nd = true /\ exists x, In x (if b then tl rc else rc) /\ is_dir (snd x) = false).
 Proof.
-  induction rc as [|[name nd] rc IH]; intros b e; cbn [check_up]; [discriminate|].
-  destruct (has_gomod nd) eqn:Eg.
-  - intros _. exists (name, nd). split; [now left | now left].
-  - destruct (bad_name name) eqn:Eb.
-    + intros _. exists (name, nd). split; [now left | now right].
-    + intros H. apply IH in H as (x & Hx & Hor). exists x. split; [now right | assumption].
+  induction rc as [|[name n] rc IH]; intros b e; cbn [check_up]; [discriminate|].
+  destruct (has_gomod n) eqn:Eg.
+  { intros _. left. exists (name, n). split; [now left | now left]. }
+  destruct (nd && negb b && negb (is_dir n)) eqn:E2.
+  { intros _. right. apply andb_true_iff in E2 as [E2 E3]. apply andb_true_iff in E2 as [E1 E2].
+    apply negb_true_iff in E2, E3. subst b. split; [assumption|]. exists (name, n). split; [now left | assumption]. }
+  destruct (bad_name name) eqn:Eb.
+  { intros _. left. exists (name, n). split; [now left | now right]. }
+  intros H. apply IH in H as [(x & Hx & Hor)|(Hn & x & Hx & Hd)].
+  - left. exists x. split; [now right | assumption].
+  - right. split; [assumption|]. exists x. split; [|assumption]. destruct b; [exact Hx | now right].
 Qed.
 
-Lemma match_files_err all chain :
-  (exists e, match_files all chain = Err e) <-> BadEntry all chain.
+Lemma match_files_err nd all chain :
+  (exists e, match_files nd all chain = Err e) <-> BadEntry nd all chain.
 Proof.
   unfold match_files. split.
-  - intros [e H]. destruct (check_path chain) eqn:Ec.
-    + unfold check_path in Ec. apply check_up_some in Ec as (x & Hx & [Hg|Hb]); apply in_rev in Hx.
-      * eapply Bad_module; eassumption.
-      * eapply Bad_name; eassumption.
-    + apply check_path_none in Ec.
+  - intros [e H]. destruct (check_path nd chain) eqn:Ec.
+    + unfold check_path in Ec. apply check_up_some in Ec as [(x & Hx & [Hg|Hb])|(Hn & x & Hx & Hd)].
+      * apply in_rev in Hx. eapply Bad_module; eassumption.
+      * apply in_rev in Hx. eapply Bad_name; eassumption.
+      * rewrite tl_rev in Hx. apply in_rev in Hx. apply Bad_nondir; [assumption|]. now exists x.
+    + apply check_path_none in Ec as [Ec _].
       destruct (last chain ([], Irreg)) as [nm n] eqn:El.
       destruct n as [d0|es|t|]; try discriminate.
       * assert (Hg : has_gomod (Dir es) = false).
@@ -354,10 +383,11 @@ Proof.
         apply walk_complete with (prefix := rel_of chain) in HB. rewrite Ew in HB. destruct HB.
       * eapply Bad_symlink; eassumption.
       * eapply Bad_irregular; eassumption.
-  - intros HB. destruct (check_path chain) eqn:Ec; [eauto|].
-    apply check_path_none in Ec. rewrite Forall_forall in Ec.
-    destruct HB as [e Hin Hg | e Hin Hb | nm El | nm t El | nm es El Hno].
+  - intros HB. destruct (check_path nd chain) eqn:Ec; [eauto|].
+    apply check_path_none in Ec as [Ec Ed]. rewrite Forall_forall in Ec.
+    destruct HB as [e Hin Hg | Hn (x & Hx & Hd) | e Hin Hb | nm El | nm t El | nm es El Hno].
     + destruct (Ec _ Hin). congruence.
+    + specialize (Ed Hn). rewrite Forall_forall in Ed. specialize (Ed _ Hx). congruence.
     + destruct (Ec _ Hin). congruence.
     + rewrite El. eauto.
     + rewrite El. eauto.
@@ -453,28 +483,28 @@ Proof.
 Qed.
 
 (* ---------- all matches of one pattern ---------- *)
-Lemma do_matches_ok all ms : forall s s', do_matches all s ms = Ok s' ->
-  exists fss, Forall2 (fun m fs => match_files all m = Ok fs) ms fss
+Lemma do_matches_ok nd all ms : forall s s', do_matches nd all s ms = Ok s' ->
+  exists fss, Forall2 (fun m fs => match_files nd all m = Ok fs) ms fss
               /\ s' = fold_left add_file (concat fss) s.
 Proof.
   induction ms as [|m ms IH]; intros s s'; cbn [do_matches].
   - intros H; inversion H. exists []. split; [constructor | reflexivity].
-  - rewrite do_match_eq. destruct (match_files all m) as [fs|e] eqn:Em; [|discriminate].
+  - rewrite do_match_eq. destruct (match_files nd all m) as [fs|e] eqn:Em; [|discriminate].
     intros H. apply IH in H as (fss & HF & ->). exists (fs :: fss). split; [now constructor|].
     cbn [concat]. now rewrite fold_left_app.
 Qed.
 
-Lemma do_matches_err all ms : forall s e, do_matches all s ms = Err e ->
-  exists m, In m ms /\ match_files all m = Err e.
+Lemma do_matches_err nd all ms : forall s e, do_matches nd all s ms = Err e ->
+  exists m, In m ms /\ match_files nd all m = Err e.
 Proof.
   induction ms as [|m ms IH]; intros s e; cbn [do_matches]; [discriminate|].
-  rewrite do_match_eq. destruct (match_files all m) as [fs|e'] eqn:Em.
+  rewrite do_match_eq. destruct (match_files nd all m) as [fs|e'] eqn:Em.
   - intros H. apply IH in H as (m' & Hin & H). exists m'. split; [now right | assumption].
   - intros H; inversion H; subst. exists m. split; [now left | assumption].
 Qed.
 
-Lemma do_matches_total all ms : forall s,
-  (forall m, In m ms -> exists fs, match_files all m = Ok fs) -> exists s', do_matches all s ms = Ok s'.
+Lemma do_matches_total nd all ms : forall s,
+  (forall m, In m ms -> exists fs, match_files nd all m = Ok fs) -> exists s', do_matches nd all s ms = Ok s'.
 Proof.
   induction ms as [|m ms IH]; intros s H; cbn [do_matches]; [eauto|].
   rewrite do_match_eq. destruct (H m (or_introl eq_refl)) as [fs ->].
@@ -501,14 +531,14 @@ Qed.
 Definition PatGives (root : node) (pat : str) (p d : str) : Prop :=
   exists chain, Selects root (split_slash (snd (cut_all pat))) chain /\ Gives (fst (cut_all pat)) chain p d.
 
-Lemma do_pattern_ok root seen pat seen' : do_pattern root seen pat = Ok seen' ->
+Lemma do_pattern_ok nd root seen pat seen' : do_pattern nd root seen pat = Ok seen' ->
   (forall x, In x seen' -> In x seen \/ PatGives root pat (fst x) (snd x))
   /\ (forall x, In x seen -> In x seen')
   /\ (forall p d, PatGives root pat p d -> In p (map fst seen'))
   /\ (NoDup (map fst seen) -> NoDup (map fst seen')).
 Proof.
   unfold do_pattern. destruct (pattern_ok (snd (cut_all pat))); [|discriminate]. cbn [negb].
-  destruct (do_matches (fst (cut_all pat)) (seen, []) (glob root (snd (cut_all pat)))) as [[s' have]|e] eqn:Em; [|discriminate].
+  destruct (do_matches nd (fst (cut_all pat)) (seen, []) (glob root (snd (cut_all pat)))) as [[s' have]|e] eqn:Em; [|discriminate].
   destruct (is_nil have); [discriminate|]. intros H; inversion H; subst s'. clear H.
   apply do_matches_ok in Em as (fss & HF & Es).
   assert (E1 : seen' = fst (fold_left add_file (concat fss) (seen, []))) by now rewrite <- Es.
@@ -525,14 +555,14 @@ Proof.
   - intros Hn. now apply fold_add_nodup.
 Qed.
 
-Lemma do_pattern_err root seen pat :
-  (exists e, do_pattern root seen pat = Err e) <-> PatternRejected root pat.
+Lemma do_pattern_err nd root seen pat :
+  (exists e, do_pattern nd root seen pat = Err e) <-> PatternRejected nd root pat.
 Proof.
   unfold do_pattern, PatternRejected.
   destruct (pattern_ok (snd (cut_all pat))) eqn:Ep; cbn [negb].
   2:{ split; [now left | eauto]. }
   set (all := fst (cut_all pat)). set (g := snd (cut_all pat)).
-  destruct (do_matches all (seen, []) (glob root g)) as [[s' have]|e] eqn:Em.
+  destruct (do_matches nd all (seen, []) (glob root g)) as [[s' have]|e] eqn:Em.
   - apply do_matches_ok in Em as (fss & HF & Es).
     assert (Eh : have = snd (fold_left add_file (concat fss) (seen, []))) by now rewrite <- Es.
     destruct (is_nil have) eqn:En.
@@ -555,7 +585,7 @@ Proof.
 Qed.
 
 (* ---------- the pattern list ---------- *)
-Lemma resolve_go_ok root pats : forall seen s, resolve_go root pats seen = Ok s ->
+Lemma resolve_go_ok nd root pats : forall seen s, resolve_go nd root pats seen = Ok s ->
   (forall x, In x s -> In x seen \/ exists pat, In pat pats /\ PatGives root pat (fst x) (snd x))
   /\ (forall x, In x seen -> In x s)
   /\ (forall pat p d, In pat pats -> PatGives root pat p d -> In p (map fst s))
@@ -563,7 +593,7 @@ Lemma resolve_go_ok root pats : forall seen s, resolve_go root pats seen = Ok s 
 Proof.
   induction pats as [|pat pats IH]; intros seen s; cbn [resolve_go].
   - intros H; inversion H; subst. repeat split; auto. intros ? ? ? [].
-  - destruct (do_pattern root seen pat) as [s1|e] eqn:Ep; [|discriminate].
+  - destruct (do_pattern nd root seen pat) as [s1|e] eqn:Ep; [|discriminate].
     intros H. apply IH in H as (A1 & A2 & A3 & A4).
     apply do_pattern_ok in Ep as (B1 & B2 & B3 & B4). repeat split.
     + intros x Hx. apply A1 in Hx as [Hx|(pt & Hpt & HG)].
@@ -576,15 +606,15 @@ Proof.
     + intros Hn. apply A4. now apply B4.
 Qed.
 
-Lemma resolve_go_err root pats : forall seen,
-  (exists e, resolve_go root pats seen = Err e) <-> Exists (PatternRejected root) pats.
+Lemma resolve_go_err nd root pats : forall seen,
+  (exists e, resolve_go nd root pats seen = Err e) <-> Exists (PatternRejected nd root) pats.
 Proof.
   induction pats as [|pat pats IH]; intros seen; cbn [resolve_go].
   - split; [intros [e H]; discriminate | intros H; inversion H].
-  - destruct (do_pattern root seen pat) as [s1|e] eqn:Ep.
+  - destruct (do_pattern nd root seen pat) as [s1|e] eqn:Ep.
     + rewrite IH. split; [now right|]. intros H. inversion H; subst; [|assumption].
-      exfalso. apply (do_pattern_err root seen pat) in H1 as [e He]. congruence.
-    + split; [|eauto]. intros _. left. apply (do_pattern_err root seen pat). eauto.
+      exfalso. apply (do_pattern_err nd root seen pat) in H1 as [e He]. congruence.
+    + split; [|eauto]. intros _. left. apply (do_pattern_err nd root seen pat). eauto.
 Qed.
 
 (* ---------- main statements about resolve ---------- *)
@@ -603,21 +633,21 @@ Proof.
   - eapply Permutation_in; [symmetry; exact P | exact H].
 Qed.
 
-Lemma resolve_sound_l root pats l p d :
-  resolve root pats = Ok l -> In (p, d) l -> Embeds root pats p d.
+Lemma resolve_sound_l nd root pats l p d :
+  resolve_gen nd root pats = Ok l -> In (p, d) l -> Embeds root pats p d.
 Proof.
-  unfold resolve. destruct (resolve_go root pats []) as [s|e] eqn:E; [|discriminate].
+  unfold resolve_gen. destruct (resolve_go nd root pats []) as [s|e] eqn:E; [|discriminate].
   intros H; inversion H; subst l. intros Hin. apply (proj1 (sort_files_in _ _)) in Hin.
   apply resolve_go_ok in E as (A1 & _). apply A1 in Hin as [[]|Hx].
   now apply embeds_patgives.
 Qed.
 
-Lemma resolve_complete_l root pats l p d :
-  resolve root pats = Ok l -> Embeds root pats p d ->
+Lemma resolve_complete_l nd root pats l p d :
+  resolve_gen nd root pats = Ok l -> Embeds root pats p d ->
   exists d', In (p, d') l /\ Embeds root pats p d'.
 Proof.
-  intros HR HE. pose proof HR as HR'. unfold resolve in HR.
-  destruct (resolve_go root pats []) as [s|e] eqn:E; [|discriminate].
+  intros HR HE. pose proof HR as HR'. unfold resolve_gen in HR.
+  destruct (resolve_go nd root pats []) as [s|e] eqn:E; [|discriminate].
   inversion HR; subst l. apply resolve_go_ok in E as (_ & _ & A3 & _).
   apply embeds_patgives in HE as (pat & Hp & HG).
   specialize (A3 _ _ _ Hp HG). apply in_map_iff in A3 as ([p' d'] & Ep & Hx). cbn in Ep. subst p'.
@@ -625,10 +655,10 @@ Proof.
   split; [assumption|]. eapply resolve_sound_l; eassumption.
 Qed.
 
-Lemma resolve_sorted_l root pats l :
-  resolve root pats = Ok l -> StronglySorted (fun a b => str_ltb (fst a) (fst b) = true) l.
+Lemma resolve_sorted_l nd root pats l :
+  resolve_gen nd root pats = Ok l -> StronglySorted (fun a b => str_ltb (fst a) (fst b) = true) l.
 Proof.
-  unfold resolve. destruct (resolve_go root pats []) as [s|e] eqn:E; [|discriminate].
+  unfold resolve_gen. destruct (resolve_go nd root pats []) as [s|e] eqn:E; [|discriminate].
   intros H; inversion H; subst l.
   apply resolve_go_ok in E as (_ & _ & _ & A4).
   apply (sort_strict fst str_ltb str_ltb_trans str_ltb_irrefl str_ltb_total).
@@ -643,30 +673,31 @@ Proof.
   specialize (Hf _ Hy). rewrite E, str_ltb_irrefl in Hf. discriminate.
 Qed.
 
-Lemma resolve_rejects_l root pats :
-  (exists e, resolve root pats = Err e) <-> Exists (PatternRejected root) pats.
+Lemma resolve_rejects_l nd root pats :
+  (exists e, resolve_gen nd root pats = Err e) <-> Exists (PatternRejected nd root) pats.
 Proof.
-  rewrite <- (resolve_go_err root pats []). unfold resolve.
-  destruct (resolve_go root pats []) as [s|e]; split; intros [e' H]; try discriminate; eauto.
+  rewrite <- (resolve_go_err nd root pats []). unfold resolve_gen.
+  destruct (resolve_go nd root pats []) as [s|e]; split; intros [e' H]; try discriminate; eauto.
 Qed.
 
-(* the cmd/go rule that is missing: a selected path may run through a symbolic link *)
+(* the cmd/go non-directory rule: without it a selected path may run through a symbolic link *)
 Definition wit_root : node :=
   Dir [([108], Link (Some (Dir [([102; 46; 116; 120; 116], File [104; 105])])))].
 Definition wit_pats : list str := [[108; 47; 102; 46; 116; 120; 116]].
 
 Lemma symlink_parent_witness :
-  resolve wit_root wit_pats = Ok [([108; 47; 102; 46; 116; 120; 116], [104; 105])]
+  resolve_gen false wit_root wit_pats = Ok [([108; 47; 102; 46; 116; 120; 116], [104; 105])]
+  /\ resolve wit_root wit_pats = Err E_NONDIR
   /\ exists chain, Selects wit_root (split_slash (snd (cut_all [108; 47; 102; 46; 116; 120; 116]))) chain
                    /\ ThroughLink chain.
 Proof.
-  split; [vm_compute; reflexivity|].
+  split; [vm_compute; reflexivity|]. split; [vm_compute; reflexivity|].
   exists [([108], Link (Some (Dir [([102; 46; 116; 120; 116], File [104; 105])])));
           ([102; 46; 116; 120; 116], File [104; 105])].
   split.
   - apply Sel_step; [now left | vm_compute; reflexivity|].
     apply Sel_last; [now left | vm_compute; reflexivity].
-  - eexists _, _. split; [now left | reflexivity].
+  - eexists. split; [now left | reflexivity].
 Qed.
 
 (* ---------- BuildFSEntries ---------- *)
@@ -926,14 +957,33 @@ Definition parse_args (args : str) : option (list str) :=
 Definition field (q : style * str) : str := quote_arg (fst q) (snd q).
 Definition tail_ok (t : str) : Prop := t = [] \/ exists r, t = SP :: r.
 
-Lemma split_bare_app a : forall t, forallb (fun b => negb (blank b)) a = true -> tail_ok t ->
+Lemma space_at_ascii c r : (c <? 128) = true ->
+  space_at (c :: r) = if is_space c then 1%nat else 0%nat.
+Proof. intros H. unfold space_at, decode_rune. rewrite H. reflexivity. Qed.
+
+Lemma space_at_sp r : space_at (SP :: r) = 1%nat.
+Proof. now rewrite space_at_ascii by reflexivity. Qed.
+
+Definition bare_byte (b : N) : bool := (b <? 128) && negb (is_space b).
+
+Lemma space_at_bare c r : bare_byte c = true -> space_at (c :: r) = 0%nat.
+Proof.
+  intros H. apply andb_true_iff in H as [H1 H2]. apply negb_true_iff in H2.
+  rewrite space_at_ascii by assumption. now rewrite H2.
+Qed.
+
+Lemma split_bare_app a : forall t, forallb bare_byte a = true -> tail_ok t ->
   split_bare (a ++ t) = (a, t).
 Proof.
-  induction a as [|c a IH]; intros t Ha Ht; cbn.
-  - destruct Ht as [->|[r ->]]; reflexivity.
-  - cbn in Ha. apply andb_true_iff in Ha as [Hc Ha]. apply negb_true_iff in Hc. rewrite Hc.
+  induction a as [|c a IH]; intros t Ha Ht.
+  - destruct Ht as [->|[r ->]]; [reflexivity|]. cbn [app split_bare]. now rewrite space_at_sp.
+  - cbn [forallb] in Ha. apply andb_true_iff in Ha as [Hc Ha].
+    cbn [app split_bare]. rewrite space_at_bare by assumption. cbn [Nat.ltb Nat.leb].
     now rewrite IH.
 Qed.
+
+Lemma tail_check t : tail_ok t -> negb (is_nil t) && Nat.eqb (space_at t) 0 = false.
+Proof. intros [->|[r ->]]; [reflexivity|]. now rewrite space_at_sp. Qed.
 
 Lemma split_quoted_back a : forall t, forallb (fun b => negb (b =? BQ) && negb (b =? 13)) a = true ->
   split_quoted BQ (a ++ BQ :: t) = Some (a ++ [BQ], t).
@@ -974,23 +1024,25 @@ Proof.
   intros Hs Ht Hl. destruct st; cbn [quote_arg].
   - (* bare *)
     destruct a as [|c a]; [discriminate|]. cbn [style_ok] in Hs.
-    apply andb_true_iff in Hs as [Hq Hb].
+    apply andb_true_iff in Hs as [Hq Hb]. fold bare_byte in Hb.
     assert (Hb' := Hb). cbn [forallb] in Hb'. apply andb_true_iff in Hb' as [Hc _].
-    apply negb_true_iff in Hc. apply negb_true_iff in Hq.
-    apply orb_false_iff in Hq as [Hq _]. 
-    change ((c :: a) ++ t) with (c :: (a ++ t)). cbn [split_args_go]. rewrite Hc, Hq.
+    apply negb_true_iff in Hq.
+    change ((c :: a) ++ t) with (c :: (a ++ t)). cbn [split_args_go].
+    rewrite space_at_bare by assumption. cbn [Nat.ltb Nat.leb]. rewrite Hq.
     change (c :: a ++ t) with ((c :: a) ++ t). rewrite split_bare_app by assumption.
     cbn [fst snd]. now rewrite Hl.
   - (* back-quoted *)
     cbn [style_ok] in Hs. change ((BQ :: a ++ [BQ]) ++ t) with (BQ :: ((a ++ [BQ]) ++ t)).
     rewrite <- app_assoc. cbn [app split_args_go].
-    change (blank BQ) with false. change ((BQ =? DQ) || (BQ =? BQ)) with true. cbn [negb].
-    rewrite split_quoted_back by assumption. now rewrite Hl.
+    rewrite space_at_ascii by reflexivity. change (is_space BQ) with false. cbn [Nat.ltb Nat.leb].
+    change ((BQ =? DQ) || (BQ =? BQ)) with true. cbn iota.
+    rewrite split_quoted_back by assumption. rewrite tail_check by assumption. now rewrite Hl.
   - (* double-quoted *)
     change ((DQ :: esc_dq a ++ [DQ]) ++ t) with (DQ :: ((esc_dq a ++ [DQ]) ++ t)).
     rewrite <- app_assoc. cbn [app split_args_go].
-    change (blank DQ) with false. change ((DQ =? DQ) || (DQ =? BQ)) with true. cbn [negb].
-    rewrite split_quoted_dq. now rewrite Hl.
+    rewrite space_at_ascii by reflexivity. change (is_space DQ) with false. cbn [Nat.ltb Nat.leb].
+    change ((DQ =? DQ) || (DQ =? BQ)) with true. cbn iota.
+    rewrite split_quoted_dq. rewrite tail_check by assumption. now rewrite Hl.
 Qed.
 
 Lemma split_args_render qs : Forall (fun q => style_ok (fst q) (snd q) = true) qs ->
@@ -1007,17 +1059,8 @@ Proof.
       unfold field at 1 3. apply split_one; [assumption | right; eauto |].
       pose proof (field_nonempty q Hq) as Hlen.
       rewrite app_length in HF. cbn [length] in HF.
-      destruct fuel as [|f2]; [lia|]. cbn [split_args_go]. change (blank SP) with true. cbn iota.
+      destruct fuel as [|f2]; [lia|]. cbn [split_args_go]. rewrite space_at_sp. cbn [Nat.ltb Nat.leb skipn].
       apply IH. lia.
-Qed.
-
-Lemma unquote_bare a : style_ok Bare a = true -> unquote a = None.
-Proof.
-  destruct a as [|q s1]; [reflexivity|]. cbn [style_ok]. intros H.
-  apply andb_true_iff in H as [Hq _]. apply negb_true_iff in Hq.
-  apply orb_false_iff in Hq as [Hq H3]. apply orb_false_iff in Hq as [H1 H2].
-  unfold unquote. destruct (Nat.ltb (length (q :: s1)) 2); [reflexivity|].
-  destruct (existsb (N.eqb q) s1); [|reflexivity]. cbn [negb]. now rewrite H2, H3, H1.
 Qed.
 
 Fixpoint upto_bq (l : str) : str * str :=
@@ -1104,12 +1147,10 @@ Lemma unquote_fields_render qs : Forall (fun q => style_ok (fst q) (snd q) = tru
 Proof.
   induction 1 as [|[st a] qs Hq Hqs IH]; [reflexivity|].
   cbn [map unquote_fields]. rewrite IH. unfold field. cbn [fst snd] in *. destruct st.
-  - rewrite unquote_bare by assumption. cbn [quote_arg].
-    destruct a as [|c a]; [discriminate|]. cbn [style_ok] in Hq.
-    apply andb_true_iff in Hq as [Hq _]. apply negb_true_iff in Hq.
-    apply orb_false_iff in Hq as [Hq _]. now rewrite Hq.
-  - now rewrite unquote_back.
-  - now rewrite unquote_double.
+  - cbn [quote_arg]. destruct a as [|c a]; [discriminate|]. cbn [style_ok] in Hq.
+    apply andb_true_iff in Hq as [Hq _]. apply negb_true_iff in Hq. now rewrite Hq.
+  - rewrite unquote_back by assumption. cbn [quote_arg]. change ((BQ =? DQ) || (BQ =? BQ)) with true. reflexivity.
+  - rewrite unquote_double by assumption. cbn [quote_arg]. change ((DQ =? DQ) || (DQ =? BQ)) with true. reflexivity.
 Qed.
 
 Lemma parse_args_roundtrip qs : Forall (fun q => style_ok (fst q) (snd q) = true) qs ->
@@ -1118,4 +1159,12 @@ Proof.
   intros H. unfold parse_args, split_args, render_args.
   change (map (fun q => quote_arg (fst q) (snd q)) qs) with (map field qs).
   rewrite split_args_render by (assumption || lia). now apply unquote_fields_render.
+Qed.
+
+Lemma rejects_nondir_l root pats pat chain :
+  In pat pats -> Selects root (split_slash (snd (cut_all pat))) chain -> ThroughLink chain ->
+  exists e, resolve root pats = Err e.
+Proof.
+  intros Hp HS HT. apply (resolve_rejects_l true). apply Exists_exists. exists pat. split; [assumption|].
+  right; right. exists chain. split; [assumption|]. now apply Bad_nondir.
 Qed.
